@@ -59,7 +59,8 @@ fn parse_comment<'n>(node: Node<'n, 'n>) -> Option<String> {
 }
 
 pub fn xml_name_to_rust_name(xml_name: &str) -> String {
-    let rust_name = to_pascal_case(xml_name);
+    // (numeric characters outside ASCII survive the conversion but cannot be part of an identifier)
+    let rust_name: String = to_pascal_case(xml_name).chars().filter(|c| c.is_ascii() || !c.is_numeric()).collect();
     // the only keyword that survives PascalCase; it cannot be a raw identifier either
     if rust_name == "Self" {
         "Self_".to_string()
